@@ -38,7 +38,7 @@ CHECKS = {
         "assumptions": E2E_ASSUME,
     },
     "C03": {
-        "module": "Vanguard.Props.C03", "namespace": "Vanguard.C03", "streams": ["e2e"],
+        "module": "Vanguard.Props.C03", "namespace": "Vanguard.C03", "streams": ["e2e", "schema"],
         "partial": "that the model's whole response satisfies the protocol validator for every scenario is not a theorem yet",
         "assumptions": E2E_ASSUME,
     },
@@ -61,7 +61,7 @@ CHECKS = {
         "assumptions": E2E_ASSUME,
     },
     "C11": {
-        "module": "Vanguard.Props.C11", "namespace": "Vanguard.C11", "streams": ["e2e", "codes"],
+        "module": "Vanguard.Props.C11", "namespace": "Vanguard.C11", "streams": ["e2e", "codes", "percent", "timeout", "escape", "route", "envelope"],
         "partial": "panic-freedom is proved for every outcome-reporting path; for the writer/reader loops it is checked by correspondence; "
                    "framing by a real HTTP stack is represented by httptest.ResponseRecorder only",
         "assumptions": E2E_ASSUME,
@@ -84,7 +84,7 @@ CHECKS = {
         "trusted_extra": ["verif pool hook (verif_hooks_on.go): records Get/Put/Wrap, poisons released buffers"],
     },
     "C15": {
-        "module": "Vanguard.Props.C15", "namespace": "Vanguard.C15", "streams": ["history", "e2e"],
+        "module": "Vanguard.Props.C15", "namespace": "Vanguard.C15", "streams": ["history", "e2e", "rest"],
         "partial": "proved on the model of the pooled objects (bytes.Buffer with stale backing array, stateful compressor/decompressor): "
                    "their previous use is unobservable; that the Go code uses them only through Reset-first protocols is checked by the "
                    "history stream (every request on a long-lived and on a fresh Transcoder, hostile traffic in between), not proved; "
@@ -148,7 +148,7 @@ CHECKS = {
                           "route match and prepareUnmarshalledRequest)"],
     },
     "C18": {
-        "module": "Vanguard.Props.C18", "namespace": "Vanguard.C18", "streams": ["e2e"],
+        "module": "Vanguard.Props.C18", "namespace": "Vanguard.C18", "streams": ["e2e", "rest"],
         "partial": "no I/O after return is observed by the harness (vanguard starts no goroutine), not modelled",
         "assumptions": E2E_ASSUME,
     },
@@ -182,7 +182,7 @@ CHECKS = {
         ],
     },
     "C19": {
-        "module": "Vanguard.Props.C19", "namespace": "Vanguard.C19", "streams": ["getpost", "e2e"],
+        "module": "Vanguard.Props.C19", "namespace": "Vanguard.C19", "streams": ["getpost", "e2e", "schema"],
         "partial": "",
         "assumptions": E2E_ASSUME + ["url.Values.Encode / url.ParseQuery / base64 are modelled explicitly (Handle.lean) and cross-checked by the streams"],
     },
